@@ -639,6 +639,29 @@ class EvalMixin:
                 return SV(t, z3.If(cond, pack(st, a, t), pack(st, b, t)))
         if isinstance(a, NoneV) and isinstance(b, NoneV):
             return a
+        if isinstance(a, Ref) and isinstance(b, Ref):
+            ca, cb = st.store[a.id], st.store[b.id]
+            if isinstance(ca, ListC) and isinstance(cb, ListC):
+                t = ca.t if ca.t == cb.t else Ty('list', [join_types(ca.t.args[0], cb.t.args[0])])
+                S = sort_of(t)
+                pa, pb = pack(st, a, t), pack(st, b, t)
+                return new_list(st, t, z3.If(cond, S.arr(pa), S.arr(pb)), z3.If(cond, S.n(pa), S.n(pb)))
+        if isinstance(a, OptV) and isinstance(b, NoneV):
+            return OptV(z3.Or(z3.Not(cond), a.none), a.val, a.t)
+        if isinstance(b, OptV) and isinstance(a, NoneV):
+            return OptV(z3.Or(cond, b.none), b.val, b.t)
+        if isinstance(a, OptV) and isinstance(b, OptV) and a.t == b.t:
+            inner = self.merge_values(st, cond, self.lift(a.val), self.lift(b.val))
+            if inner is not None:
+                return OptV(z3.If(cond, a.none, b.none), inner, a.t)
+        if isinstance(a, OptV) and isinstance(b, (SV, TupV)) and a.t.args[0] == type_of(b):
+            inner = self.merge_values(st, cond, self.lift(a.val), b)
+            if inner is not None:
+                return OptV(z3.And(cond, a.none), inner, a.t)
+        if isinstance(b, OptV) and isinstance(a, (SV, TupV)) and b.t.args[0] == type_of(a):
+            inner = self.merge_values(st, cond, a, self.lift(b.val))
+            if inner is not None:
+                return OptV(z3.And(z3.Not(cond), b.none), inner, b.t)
         if isinstance(a, NoneV) and isinstance(b, (SV, TupV)):
             return OptV(cond, b, Ty('opt', [type_of(b)]))
         if isinstance(b, NoneV) and isinstance(a, (SV, TupV)):
@@ -756,6 +779,8 @@ class EvalMixin:
         v = self.lift(v)
         v = self.deopt(v, st, node.value if hasattr(node, 'value') else node)
         i = self.lift(i)
+        if isinstance(i, OptV):
+            i = self.deopt(i, st, getattr(node, 'slice', node))
         if isinstance(v, SV) and v.t.kind == 'map':
             try:
                 k = pack(st, i, v.t.args[0])
